@@ -27,7 +27,9 @@ def parsePairs (s : String) : List (String × Bool) :=
 
 def laspStep (t : Tokens) (impl : Option String) : StepOut :=
   match tokStr t 1 with
-  | "connect" | "pconnect" =>
+  -- pconnect2: an earlier attempt of the same application (other collector policies, failed connect) came first; the
+  -- attempt observed is judged on its own
+  | "connect" | "pconnect" | "pconnect2" =>
     let token := kvGet t "token" == some "1"
     let ap := parseAgentMap ((kvGet t "ap").getD "-")
     let pre := parseCollMap ((kvGet t "pre").getD "-")
